@@ -286,6 +286,14 @@ impl<H: DnsHandle> DnssecDnsHandle<H> {
             })
             .collect::<Vec<_>>();
 
+        // A positive answer that is not a wildcard expansion denies nothing.  NSEC/NSEC3 records
+        // that accompany it (some servers add the NSEC3 record matching the query name) have
+        // been verified as RRsets above; reading them as a denial of existence would reject the
+        // answer for containing the very type it answers.
+        if !must_validate_nsec && !message.answers.is_empty() {
+            return Ok(message);
+        }
+
         // Both NSEC and NSEC3 records cannot coexist during
         // transition periods, as per RFC 5515 10.4.3 and
         // 10.5.2
